@@ -69,6 +69,8 @@ pub fn configs(tier: Tier) -> Vec<Box<dyn Config>> {
         v.push(tab(Plan::Adv(0), 4, 5, vec![], true, tier, ""));
     }
     v.push(Box::new(super::c02::ZstTables { tier }));
+    // a panic in the caller's hasher / equality / entry closures leaves a valid table (details: C04)
+    v.push(super::c04::mk_table(Plan::Zero, if q { 4 } else { 6 }, if q { 5 } else { 8 }, vec![vec![]], None, tier, ""));
     v.push(Box::new(super::rehash::RehashGrammar { tier }));
     for plan in [Plan::Zero, Plan::Tail, Plan::Max] {
         v.push(seeded(plan, true, 1, tier));
